@@ -114,6 +114,30 @@ def op_lit(o):
     return f"SysVel {o[1]}"
 
 
+def fresh_raises(fresh, op, tk):
+    """does a fresh object raise on this build operation (after the solve its tensions token stands for)?"""
+    key = ("R", tuple(op), tk)
+    if key not in fresh.cache:
+        f = fresh.forsys()
+        val = None
+        with impl.quiet(), warnings.catch_warnings():
+            warnings.simplefilter("ignore")
+            try:
+                if op[0] == "BuildF":
+                    f.build_force_matrix(when=op[1], **build_kwargs(op[2]))
+                elif op[0] == "BuildP":
+                    if tk is not None:
+                        f.build_force_matrix(when=tk[0], **build_kwargs(tk[1]))
+                        f.solve_stress(when=tk[0], **SOLVE_ARGS[tk[2]])
+                    f.build_pressure_matrix(when=op[1])
+                else:
+                    f.get_system_velocity_per_frame(angle_limit=SYSVEL_LIMITS[op[1] - SYSVEL_BASE])
+            except Exception as ex:  # noqa
+                val = type(ex).__name__
+        fresh.cache[key] = val
+    return fresh.cache[key]
+
+
 def run_history(res, specs, times, hist, exprs, label):
     n = len(specs)
     frames = {t: impl.frame(s, t, times[t]) for t, s in enumerate(specs)}
@@ -205,6 +229,12 @@ def run_history(res, specs, times, hist, exprs, label):
                 exp_exc = fresh.tensions((o[1], fm[o[1]], o[2]))[0] == "exc"
             if k == "SolveP":
                 exp_exc = fresh.pressures((o[1], pm[o[1]], o[2]))[0] == "exc"
+            if k in ("BuildF", "BuildP", "SysVel"):
+                # the input itself may be rejected (e.g. an interface with coincident points has no curvature): history independence
+                # only asks that a fresh object is rejected alike
+                exp_exc = fresh_raises(fresh, o, tens.get(o[1]) if k == "BuildP" else None) == err.split(":")[0]
+                if exp_exc:
+                    res.count("operation rejected by fresh and used object alike")
             if not exp_exc:
                 bad.append(f"step {step} {o}: raised {err} although a fresh object accepts the same call")
         if bad:
